@@ -9,6 +9,9 @@ global size_of usize == 8;
 //@include prelude/tensor.rs
 //@include prelude/progress.rs
 
+// loops are verified in the context of their function (facts about values bound before a loop need no restating in
+// its invariant: hoisting a sub-expression out of a loop must not break the proof)
+#[verifier::loop_isolation(false)]
 pub mod unit_nuts {
     use vstd::prelude::*;
     use vstd::std_specs::iter::IteratorSpec;
